@@ -76,9 +76,13 @@ def components():
     MAMG = M + "amg<B, " + M + "coarsening::smoothed_aggregation<B>, " + M + "relaxation::spai0<B>, " + M + "direct::skyline_lu<double>, " + M + "partition::merge<B> >"
     c.append(comp("mpi.amg", "amgcl/mpi/amg.hpp", "amg", MAMG + "::params", part="mpi"))
     MSOLV = M + "solver::cg<B>"
+    c.append(comp("mpi.solver.cg", "amgcl/solver/cg.hpp", "cg", MSOLV + "::params", part="mpi"))
     c.append(comp("mpi.make_solver", "amgcl/mpi/make_solver.hpp", "make_solver", M + "make_solver<%s, %s >::params" % (MAMG, MSOLV), part="mpi"))
     c.append(comp("mpi.subdomain_deflation", "amgcl/mpi/subdomain_deflation.hpp", "subdomain_deflation",
-                  M + "subdomain_deflation<%s, %s, %s >::params" % (AMG, CG, M + "direct::skyline_lu<double>"), part="mpi"))
+                  M + "subdomain_deflation<%s, %s, %s >::params" % (AMG, CG, M + "direct::skyline_lu<double>"), part="mpi",
+                  # params() leaves num_def_vec uninitialised: it has no default to compare with and is
+                  # one parameter together with def_vec (noted in docs/C14.md, outside the property)
+                  arrays=["num_def_vec"], require={"def_vec": "@fn", "num_def_vec": "1"}))
     c.append(comp("mpi.cpr", "amgcl/mpi/cpr.hpp", "cpr", M + "cpr<%s, %s >::params" % (MAMG, M + "relaxation::as_preconditioner<" + M + "relaxation::spai0<B> >"), part="mpi"))
     c.append(comp("mpi.schur_pressure_correction", "amgcl/mpi/schur_pressure_correction.hpp", "schur_pressure_correction",
                   M + "schur_pressure_correction<%s, %s >::params" % (M + "make_solver<%s, %s >" % (MAMG, MSOLV), M + "make_solver<%s, %s >" % (MAMG, MSOLV)),
@@ -132,9 +136,10 @@ def generate(scan, comps):
     flat = flatten(scan, comps)
     L = ["// GENERATED by checks/C14.py from the header scan - do not edit", "#pragma once", ""]
     seen = {}
+    L.append("namespace c14g { typedef amgcl::backend::builtin<double> B; }")
     for part in ("serial", "mpi"):
-        L.append("#ifdef C14_PART_%s" % part.upper())
-        L.append("namespace c14g { typedef amgcl::backend::builtin<double> B; }")
+        # the MPI unit also needs the serial structures (they are members of the MPI ones)
+        L.append("#if defined(C14_PART_MPI)" if part == "mpi" else "#if defined(C14_PART_SERIAL) || defined(C14_PART_MPI)")
         ids = []
         for c in comps:
             if c["part"] != part or c["id"] not in flat:
@@ -179,6 +184,260 @@ def gen_dir(text):
         open(p, "w").write(text)
     return d
 
+
+
+# ----------------------------------------------------------------------------------- the check
+NPARTS = 6
+WRAPPER_FILES = {"solver": "amgcl/solver/runtime.hpp", "relaxation": "amgcl/relaxation/runtime.hpp",
+                 "coarsening": "amgcl/coarsening/runtime.hpp", "precond": "amgcl/preconditioner/runtime.hpp"}
+
+
+def dispatch_tables(scan, path):
+    """ndjson with the four scanned dispatch tables in the shape of Dispatch.tla."""
+    n = 0
+    with open(path, "w") as f:
+        for w, rel in WRAPPER_FILES.items():
+            t = scan["dispatch"].get(rel)
+            if not t or "enum" not in t or "print" not in t or "parse" not in t:
+                continue
+            enum = [e.split()[0] for e in t["enum"] if e.split()]
+            f.write(json.dumps({"w": w, "enum": enum, "print": t["print"], "parse": t["parse"],
+                                "parse_throws": bool(t.get("parse_throws")), "key": t.get("key", ""), "default": t.get("default", ""),
+                                "switches": [{"fn": x["fn"], "cases": x["cases"], "dflt": x["has_default_throw"]} for x in t["switches"]]}) + "\n")
+            n += 1
+    return n
+
+
+def documented(scan, c):
+    """Members documented for the class of component c (docs/components/*.rst)."""
+    if c["part"] != "serial":
+        return None
+    want = c["cls"] or c["struct"]
+    out = []
+    for m in scan["docs"]:
+        cls = m["classes"]
+        last = cls[0].split("::")[-1] if cls else ""
+        inner = cls[-1] if len(cls) > 1 else ""
+        if last == want and (inner in ("params", "") or c["struct"] != "params"):
+            if m["member"] not in out:
+                out.append(m["member"])
+    return out or None
+
+
+def sig(rec, clauses):
+    comp = rec.get("comp") or rec.get("component")
+    if comp is None and rec.get("k") in ("equiv",):
+        comp = "%s+%s+%s" % (rec.get("s"), rec.get("c"), rec.get("r"))
+    if comp is None:
+        comp = rec.get("w") or rec.get("cls") or rec.get("key") or "?"
+    return {"component": comp, "clause": clauses[0] if clauses else "", "kind": rec.get("k", "")}
+
+
+def run(c):
+    th = c.thorough()
+    c.rule = ("model: a 3-level parameter structure with every sub-list of its import/export/check lists (one level varied at a time) "
+              "x every property tree over its keys + one unknown key per level; the dispatch tables of the 4 run-time wrappers x every "
+              "name + an unknown name + the absent key.  code: every params struct instantiable offline (serial + MPI) x the probe family "
+              "of the model (each member alone at every nesting level, Bad on enumerations, each extra key, one unknown key per level) + "
+              "value subsets + seeded random trees; 36 (solver, coarsening, relaxation) compositions x problems x 2 configurations typed vs "
+              "run-time.  non-trivial = a tree with >= 1 key that did not throw, or a composition case with >= 1 iteration; distinct by content")
+    c.mechanism = {"SchemaOK / TakesEffect / RoundTrip / UnknownReported / BadEnumThrows per component": "M+V",
+                   "DispatchOK (parse o print = id, every enumerator reaches the same-named type)": "M+V",
+                   "run-time = compile-time (iterations, residual bits, solution and preconditioner digests)": "V (bitwise)",
+                   "params::get compiles (deflated_solver, ilut)": "V (compile probe)",
+                   "header scan = behaviour": "drift only"}
+    c.assumptions = ["value codes: two non-default values per member (one for bool), dyadic so the text round trip is exact",
+                     "array parameters (weights, pmask, nullspace B/cols, deflation vectors) are pointer transports, judged by their own protocol "
+                     "and exempt from the export round trip (value parameters only, as the property says)",
+                     "single-threaded runs (OMP_NUM_THREADS=1); builtin<double> backend; cuda/vexcl/hpx/pastix/scotch/parmetis structures are scanned only",
+                     "TLC, the CommunityModules Json reader, g++/mpicxx, Boost.PropertyTree are trusted"]
+    scan = scan_params.scan(vcheck.REPO)
+    comps = components()
+    text, flat = generate(scan, comps)
+    gdir = gen_dir(text)
+    inc = "-I" + gdir
+    state = {}
+
+    # ------------------------------------------------------------------ models
+    def models():
+        c.tlc_model("ParamsModel", constants={"Vals": "{1, 2}" if th else "{1}"}, workers=8)
+        c.tlc_model("DispatchModel")                      # the tables a correct header has
+        dp = c.path("dispatch.ndjson")
+        n = dispatch_tables(scan, dp)
+        if n == 4:
+            m = c.tlc_model("DispatchModel", env={"DISPATCH": dp})   # the tables scanned from this tree
+            state["dispatch_scan_violated"] = m["violated"]
+        else:
+            c.drift("dispatch tables of %d/4 run-time wrappers could not be scanned" % n)
+
+    # ------------------------------------------------------------------ builds
+    def try_build(**kw):
+        try:
+            return c.build(**kw), None
+        except vcheck.InfraError as e:
+            return None, str(e)
+
+    def builds():
+        specs = [dict(name="c14_params", sources=["record_params.cpp"], flags=[inc, "-DC14_PART_SERIAL"]),
+                 dict(name="c14_rt", sources=["record_equiv_rt.cpp"])]
+        for k in range(NPARTS):
+            specs.append(dict(name="c14_typed%d" % k, sources=["record_equiv_typed.cpp"], flags=["-DPART=%d" % k, "-DNPARTS=%d" % NPARTS]))
+        thunks = [lambda s=s: c.build(**s) for s in specs]
+        # optional: MPI structures; probes: exporters that are known not to compile
+        thunks.append(lambda: try_build(name="c14_params_mpi", sources=["record_params.cpp"], flags=[inc, "-DC14_PART_MPI"], mpi=True))
+        probes = [x for x in comps if x["export"] == "probe" and x["id"] in flat]
+        for x in probes:
+            thunks.append(lambda x=x: try_build(name="c14_probe_" + x["id"].replace(".", "_"), sources=["record_params.cpp"],
+                                                flags=[inc, "-DC14_PART_SERIAL", "-DC14_PROBE_EXPORT",
+                                                       '-DC14_ONLY_ID="%s"' % x["id"], "-DC14_ONLY_TYPE=T_" + x["id"].replace(".", "_")]))
+        res = c.parallel(thunks, max_workers=12)
+        state["params"], state["rt"] = res[0], res[1]
+        state["typed"] = res[2:2 + NPARTS]
+        state["mpi"] = res[2 + NPARTS]
+        state["probes"] = list(zip(probes, res[3 + NPARTS:]))
+
+    c.parallel([models, builds])
+
+    # ------------------------------------------------------------------ recorders
+    lines = []
+    env = {"OMP_NUM_THREADS": 1}
+    def rec(binary, label, **kw):
+        out = c.record(binary, [], out=c.path(label + ".ndjson"), env=env, sig={"component": label}, **kw)
+        ls = [x for x in open(out).read().splitlines() if x.strip()]
+        return ls
+
+    plines = rec(state["params"], "params")
+    if state["mpi"][0]:
+        plines += rec(state["mpi"][0], "params-mpi")
+    else:
+        c.note("MPI parameter structures not built offline: " + (state["mpi"][1] or "")[-300:])
+    byid = {x["id"]: x for x in comps}
+    # compile probes
+    for x, (binary, err) in state["probes"]:
+        ok = binary is not None
+        lines.append(json.dumps({"k": "compile", "comp": x["id"], "clause": "export-compiles", "ok": ok,
+                                 "what": "params::get(ptree&, path) instantiated for " + x["type"],
+                                 "stderr": "" if ok else ("\n".join(l for l in (err or "").splitlines() if "error" in l)[:600] or (err or "")[-400:])}))
+        if ok:
+            plines += rec(binary, "probe-" + x["id"])
+    # schema records: add the documentation and the header-scan readings
+    seen_schema = set()
+    for ln in plines:
+        if '"k":"schema"' in ln:
+            r = json.loads(ln)
+            x = byid.get(r["comp"])
+            if x is None or (r["comp"] in seen_schema):
+                lines.append(ln); continue
+            seen_schema.add(r["comp"])
+            d = documented(scan, x)
+            if d:
+                # a class documented once for several specialisations (ilu_solve): members of a sibling
+                # specialisation are documented for another backend, not for this structure
+                sib = set()
+                for s2 in scan["structs"]:
+                    if s2["file"] == x["file"] and s2["class"] == x["cls"] and s2 is not find_struct(scan, x):
+                        sib |= {f_["name"] for f_ in s2["fields"]}
+                own = set(flat[r["comp"]]["fields"])
+                other = [m for m in d if m not in own and m in sib]
+                if other:
+                    c.note("%s: documented members %s belong to another specialisation of the class (not instantiable with the builtin backend)" % (r["comp"], other))
+                r["documented"] = [m for m in d if m not in other]
+            f = flat[r["comp"]]
+            r["scan"] = {"imp": f["lists"]["imp_value"] + f["lists"]["imp_child"] + f["lists"]["imp_custom"],
+                         "exp": f["lists"]["exp_value"] + f["lists"]["exp_child"],
+                         "chk": f["lists"]["checked"] + f["lists"]["checked_opt"], "fields": f["fields"]}
+            # scan vs behaviour: drift of the scanner / a list defect the behaviour shows as well
+            S = r["S"]
+            vf = set(S["vf"]) - set(S["pf"])
+            if (set(r["scan"]["imp"]) & vf) != (set(r["imported"]) & vf) or (not r["noexp"] and (set(r["scan"]["exp"]) & vf) != (set(r["exported"]) & vf)):
+                state.setdefault("scan_diff", []).append(r["comp"])
+            lines.append(json.dumps(r))
+        elif '"e":"End"' in ln:
+            continue
+        else:
+            lines.append(ln)
+    # typed vs run-time
+    typed, rt = {}, {}
+    for k in range(NPARTS):
+        for ln in rec(state["typed"][k], "typed%d" % k):
+            r = json.loads(ln)
+            if r.get("k") == "typed":
+                typed[(r["idx"], r["mat"], r["cfg"])] = r
+            elif r.get("e") not in (None, "End"):
+                lines.append(ln)
+    for ln in rec(state["rt"], "runtime"):
+        r = json.loads(ln)
+        if r.get("k") == "rt":
+            rt[(r["idx"], r["mat"], r["cfg"])] = r
+        elif r.get("e") == "End":
+            continue
+        else:
+            lines.append(ln)
+    for key in sorted(set(typed) | set(rt)):
+        t, r = typed.get(key), rt.get(key)
+        if t is None or r is None:
+            lines.append(json.dumps({"e": "missing-%s-side" % ("typed" if t is None else "runtime"), "case": list(key)}))
+            continue
+        m = dict(r); m["k"] = "equiv"
+        for f in ("threw", "exc", "it", "res_lo", "res_hi", "x_lo", "x_hi", "px_lo", "px_hi"):
+            m[f] = t[f]
+        lines.append(json.dumps(m))
+    lines.append('{"e":"End"}')
+    trace = c.path("c14.ndjson")
+    open(trace, "w").write("\n".join(lines) + "\n")
+
+    # ------------------------------------------------------------------ judgement
+    res = c.tlc_trace("C14Trace", trace, label="params+dispatch+equivalence", chunk=1500)
+    kinds = {}
+    for ln in res["lines"]:
+        try:
+            r = json.loads(ln)
+        except Exception:
+            continue
+        kinds[r.get("k", "e")] = kinds.get(r.get("k", "e"), 0) + 1
+        if r.get("k") == "tree" and not r["threw"] and (r["t"]["v"] or r["t"]["c"]):
+            c.nontrivial.add(hashlib.sha1((r["comp"] + json.dumps(r["t"], sort_keys=True)).encode()).hexdigest()[:12])
+        elif r.get("k") == "equiv" and r["it"] > 0:
+            c.nontrivial.add(("equiv", r["idx"], r["mat"], r["cfg"], r["x_lo"]))
+    for want in ("tree", "schema", "equiv", "enum", "badtype", "unkrt", "equivp", "array"):
+        if not kinds.get(want):
+            raise vcheck.InfraError("no '%s' records were produced" % want)
+    if kinds.get("equiv", 0) != scan_ntriples() * (4 if th else 2) * 2:
+        c.note("equiv cases: %d" % kinds.get("equiv", 0))
+    c.note("records by kind: " + json.dumps(kinds, sort_keys=True))
+    for k in ("tree", "schema", "equiv", "enum", "unkrt"):
+        for ln in res["lines"]:
+            if '"k":"%s"' % k in ln:
+                c.sample(ln, limit=8); break
+    c.judge(res, "run-time configuration differs from compile-time configuration", sigfn=sig, stage="params")
+    c.exhaustive = True
+    # ------------------------------------------------------------------ drift / notes
+    violated = {v[2].get("component") for v in c.violations}
+    for comp_id in state.get("scan_diff", []):
+        if comp_id not in violated:
+            c.drift("header scan of %s disagrees with the behaviour of its constructor/exporter although every predicate holds "
+                    "(tools/scan_params.py needs an update)" % comp_id)
+    if state.get("dispatch_scan_violated") and not any(v[2].get("kind") in ("enum", "equiv", "equivp", "badtype") for v in c.violations):
+        c.drift("DispatchModel on the scanned tables violates %s but the running wrappers satisfy DispatchOK" % state["dispatch_scan_violated"])
+    mapped = {(find_struct(scan, x) or {}).get("file", "") + ":" + str((find_struct(scan, x) or {}).get("line")) for x in comps}
+    for s_ in scan["structs"]:
+        key = s_["file"] + ":" + str(s_["line"])
+        if key not in mapped and s_["file"] not in SCAN_ONLY and not (s_["file"].endswith("ilu_solve.hpp")):
+            c.drift("parameter structure %s (%s line %d) is not covered by a component of checks/C14.py" % (s_["class"], s_["file"], s_["line"]))
+    so = []
+    for s_ in scan["structs"]:
+        if s_["file"] in SCAN_ONLY or s_["file"].endswith("ilu_solve.hpp"):
+            F = {f["name"] for f in s_["fields"]}
+            imp = set(s_["imp_value"]) | set(s_["imp_child"]) | set(s_["imp_custom"])
+            exp = set(s_["exp_value"]) | set(s_["exp_child"])
+            if not (F <= imp and F <= exp | set(s_["imp_custom"])) and s_["has_ptree_ctor"]:
+                so.append("%s:%s fields=%s imported=%s exported=%s" % (s_["file"], s_["class"], sorted(F), sorted(imp), sorted(exp)))
+    if so:
+        c.note("scan-only structures whose lists differ (not executable offline): " + "; ".join(so))
+
+
+def scan_ntriples():
+    return 36
 
 if __name__ == "__main__":
     sc = scan_params.scan(vcheck.REPO)
